@@ -199,6 +199,13 @@ let handle = function
   | L [A "hc_body"; L args; L anns; len] ->
     let bl = function L bs -> List.map z_a bs | _ -> failwith "bytes" in
     L (List.map a_z (body (List.map bl args) (List.map bl anns) (match len with L [] -> None | l -> Some (bl l))))
+  | L [A "comp_check"; L kids; L unch; A uns; A roundtrip] ->
+    (* children are given as (id satisfiable?) ; the oracle reads the flag back *)
+    let ch = List.map (function L [A i; A b] -> (nat_of_int (int_of_string i), [BoolVe (b = "1")]) | _ -> failwith "kid") kids in
+    let c = { children = ch; unchecked = List.map (function A i -> nat_of_int (int_of_string i) | _ -> failwith "id") unch; unsat_flag = (uns = "1") } in
+    let c = if roundtrip = "1" then setstate (getstate c) else c in
+    let sat = function [BoolVe b] -> b | _ -> true in
+    L [A (if check sat c then "1" else "0"); A (if exact sat c then "1" else "0")]
   | L [A "fe_split_fe"; st] -> L (List.map fe_sexp (split_fe (fe_of st)))
   | L [A "meta"; e] ->
     let x = expr_of e in
